@@ -113,8 +113,16 @@ def random_cases(draw):
     return dict(game=g, route=route)
 
 
+def tiny_cases():
+    for g in games.tiny_reach_games():
+        for route in ("component", "pipeline", "assigned"):
+            yield dict(game=g, route=route)
+
+
 def phases(tier):
     return [
+        Phase("tiny-positive-reach-values", enum=tiny_cases,
+              note="successors worth 1e-9..1e-6 are not dead and must be kept"),
         Phase("pattern-core", enum=core_cases, exhaustive=True,
               note="all dead/live patterns of lists of length 1-5, 2 owners, 2 weight vectors, distinct/shared dead"),
         Phase("random-games", strategy=random_cases, examples=(3000, 120000)),
